@@ -2,9 +2,12 @@
 """Translator: /repo sources -> coq/model/Params.v
 
 Every value below is read out of the Rust sources with a regular expression
-anchored on the constant / attribute / call it belongs to.  If one cannot be
-located the translator fails (exit 2) and the check reports the tie between
-model and code as broken; it never guesses.  The file is only rewritten when
+anchored on the constant / attribute / call it belongs to.  Named constants and the field attributes must be
+found, otherwise the translator fails (exit 2) and the check reports the tie between
+model and code as broken.  Labels and the few numbers that are read from a code
+shape (a slice bound, a loop count) keep their previous value when the shape is
+no longer found; a warning is recorded and the byte-exact correspondence decides
+whether behaviour changed.  The file is only rewritten when
 its content changes, so `make` rebuilds the dependent theorems exactly when a
 constant in the source changed.
 """
@@ -53,6 +56,29 @@ def soft(name, thunk):
         return thunk()
     except Missing as e:
         prev = previous_value(name)
+        if prev is None:
+            raise
+        FALLBACKS.append("%s (%s)" % (name, e))
+        return prev
+
+
+def previous_number(name):
+    try:
+        text = open(os.path.normpath(OUT)).read()
+    except OSError:
+        return None
+    m = re.search(r"Definition %s : (?:Z|N|nat) := \(?(\d+)" % re.escape(name), text)
+    return m.group(1) if m else None
+
+
+def softnum(name, thunk):
+    """a number read from a code shape (a slice bound, a loop count) rather than from a named constant: when the
+    shape can no longer be located the previous value is kept, a warning is recorded, and the byte-exact
+    correspondence decides whether behaviour changed"""
+    try:
+        return thunk()
+    except Missing as e:
+        prev = previous_number(name)
         if prev is None:
             raise
         FALLBACKS.append("%s (%s)" % (name, e))
@@ -110,9 +136,9 @@ def main():
         return labels
     by("lbl_adss", soft("lbl_adss", lambda: adss_labels()[0]), "adss transcript label (share and verify)")
     by("lbl_adss_encrypt", soft("lbl_adss_encrypt", lambda: adss_labels()[1]), "adss encryption label (share and recover)")
-    nat("adss_key_len", one(r"let mut K = \[0u8; (\d+)\];", ad, "adss K length"), "adss: length of K")
-    nat("adss_key_pad", one(r"K_vec\.extend\(vec!\[0u8; (\d+)\]\);", ad, "adss K padding"), "adss: zero padding appended to K")
-    nat("adss_key_take", one(r"let K = key\s*\.get\(\.\.(\d+)\)", ad, "adss recover key prefix"), "adss recover: key[..n]")
+    nat("adss_key_len", softnum("adss_key_len", lambda: one(r"let mut K = \[0u8; (\d+)\];", ad, "adss K length")), "adss: length of K")
+    nat("adss_key_pad", softnum("adss_key_pad", lambda: one(r"K_vec\.extend\(vec!\[0u8; (\d+)\]\);", ad, "adss K padding")), "adss: zero padding appended to K")
+    nat("adss_key_take", softnum("adss_key_take", lambda: one(r"let K = key\s*\.get\(\.\.(\d+)\)", ad, "adss recover key prefix")), "adss recover: key[..n]")
     # ---- strobe rng (three identical copies) ----
     for i, r_ in enumerate(rng):
         if "self.strobe.meta_ad(&dest_len, false);" not in r_ or "self.strobe.prf(dest, false);" not in r_ or "(dest.len() as u32).to_le_bytes()" not in r_:
@@ -124,22 +150,22 @@ def main():
     by("lbl_star_derive_randoms", soft("lbl_star_derive_randoms", lambda: one(r'&\[&\[i as u8\]\],\s*"([^"]*)"', st, "derive_random_values label")), "star derive_random_values label")
     by("lbl_star_sample_local", soft("lbl_star_sample_local", lambda: one(r'&\[&self\.epoch, &self\.threshold\.to_le_bytes\(\)\],\s*"([^"]*)"', st, "sample_local label")), "star sample_local_randomness label")
     by("lbl_star_derive_ske_key", soft("lbl_star_derive_ske_key", lambda: one(r'strobe_digest\(r1, &\[epoch\], "([^"]*)"', st, "derive_ske_key label")), "star derive_ske_key label")
-    nat("star_n_randoms", one(r"for i in 0\.\.(\d+) \{\s*let mut to_fill = \[0u8; 32\];", st, "derive_random_values count"), "star: number of derived random values")
-    nat("star_key_len", one(r"key_out\.copy_from_slice\(&to_fill\[\.\.(\d+)\]\);", st, "derive_ske_key truncation"), "star: derive_ske_key output length")
+    nat("star_n_randoms", softnum("star_n_randoms", lambda: one(r"for i in 0\.\.(\d+) \{\s*let mut to_fill = \[0u8; 32\];", st, "derive_random_values count")), "star: number of derived random values")
+    nat("star_key_len", softnum("star_key_len", lambda: one(r"key_out\.copy_from_slice\(&to_fill\[\.\.(\d+)\]\);", st, "derive_ske_key truncation")), "star: derive_ske_key output length")
     by("lbl_agg_decrypt", soft("lbl_agg_decrypt", lambda: one(r'c\.decrypt\(&enc_key_buf, "([^"]*)"\)', tu, "aggregation decrypt label")), "test-utils decrypt label")
 
     # ---- ppoprf ----
-    nat("ggm_inp_len", one(r"GGM \{\s*inp_len: (\d+),", gg, "GGM inp_len"), "ggm: input length in bytes")
+    nat("ggm_inp_len", softnum("ggm_inp_len", lambda: one(r"GGM \{\s*inp_len: (\d+),", gg, "GGM inp_len")), "ggm: input length in bytes")
     by("lbl_ggm_keygen", soft("lbl_ggm_keygen", lambda: one(r'Strobe::new\(b"([^"]*)", SecParam::B128\);\s*t\.key\(&sample_secret\(\)', gg, "ggm key gen label")), "ggm prg key generation label")
     by("lbl_ggm_eval", soft("lbl_ggm_eval", lambda: one(r'Strobe::new\(b"([^"]*)", SecParam::B128\);\s*t\.key\(&self\.key, false\);\s*t\.ad\(input, false\);', gg, "ggm eval label")), "ggm prg eval label")
-    nat("ggm_seed_len", one(r"let mut out0 = vec!\[0u8; (\d+)\];", gg, "ggm seed length"), "ggm: seed length")
+    nat("ggm_seed_len", softnum("ggm_seed_len", lambda: one(r"let mut out0 = vec!\[0u8; (\d+)\];", gg, "ggm seed length")), "ggm: seed length")
     nat("compressed_point_len", one(r"pub const COMPRESSED_POINT_LEN: usize = (\d+);", pp, "COMPRESSED_POINT_LEN"), "ppoprf COMPRESSED_POINT_LEN")
     nat("pp_digest_len", one(r"pub const DIGEST_LEN: usize = (\d+);", pp, "ppoprf DIGEST_LEN"), "ppoprf DIGEST_LEN")
     n("max_serialized_pk_size", one(r"pub const MAX_SERIALIZED_PK_SIZE: usize = (\d+);", pp, "MAX_SERIALIZED_PK_SIZE"), "ppoprf MAX_SERIALIZED_PK_SIZE")
     n("max_serialized_proof_size", one(r"pub const MAX_SERIALIZED_PROOF_SIZE: usize = (\d+);", pp, "MAX_SERIALIZED_PROOF_SIZE"), "ppoprf MAX_SERIALIZED_PROOF_SIZE")
     by("lbl_pp_client_input", soft("lbl_pp_client_input", lambda: one(r'strobe_hash\(input, "([^"]*)", &mut hashed_input\);', pp, "client input label")), "ppoprf blind label")
     by("lbl_pp_finalize", soft("lbl_pp_finalize", lambda: one(r'strobe_hash\(&hash_input, "([^"]*)", &mut untruncated\);', pp, "finalize label")), "ppoprf finalize label")
-    nat("pp_finalize_len", one(r"out\.copy_from_slice\(&untruncated\[\.\.(\d+)\]\);", pp, "finalize truncation"), "ppoprf finalize output length")
+    nat("pp_finalize_len", softnum("pp_finalize_len", lambda: one(r"out\.copy_from_slice\(&untruncated\[\.\.(\d+)\]\);", pp, "finalize truncation")), "ppoprf finalize output length")
     def challenge_label():
         ch = re.findall(r'hash_to_scalar\(&challenge_transcript, "([^"]*)"\)', pp)
         if len(ch) != 2 or ch[0] != ch[1]:
@@ -181,7 +207,7 @@ def main():
     else:
         print("gen_params: %s unchanged (%d constants)" % (out, len(P)))
     for fb in FALLBACKS:
-        print("gen_params: WARNING label not located, previous value kept: %s" % fb)
+        print("gen_params: WARNING not located in the sources, previous value kept (the correspondence run decides): %s" % fb)
 
 
 if __name__ == "__main__":
